@@ -105,6 +105,8 @@ class Unit:
         self.bounded = []
         self.notes = []
         self.canary_skip = set()
+        self.auto_opaque = False
+        self.auto_added = []
         self.enum_variants = {}   # enum name -> (variants present in the extracted enum, has VxOther)
 
     # ---------- raw text ----------
@@ -385,7 +387,7 @@ pub assume_specification [<{q} as PartialEq>::eq] (a: &{q}, b: &{q}) -> (r: bool
             edits.append((t, t, [Seg(')')]))
             self._rw('R9')
         # contract
-        csegs = [Seg('\n')]
+        csegs = [Seg('\n/*VXC*/\n')]
         clause_list = []
 
         def add_clauses(kind, items, indent='        '):
@@ -405,6 +407,7 @@ pub assume_specification [<{q} as PartialEq>::eq] (a: &{q}, b: &{q}) -> (r: bool
         csegs += add_clauses('requires', requires)
         csegs += add_clauses('recommends', recommends)
         csegs += add_clauses('ensures', ensures)
+        csegs.append(Seg('/*VXCE*/'))
         if decreases:
             csegs.append(Seg(f'        decreases {decreases},\n'))
         edits.append((bs, bs, csegs))
@@ -813,9 +816,24 @@ def map_diag(d, spans, fnspans):
 
 def verify_unit(u, seed=None, canary=True, exclude=(), rlimit=None):
     """Run Verus on the unit (and on its vacuity canary).  Returns a result dict."""
-    text, spans, fnspans = u.assemble(exclude=exclude)
     wd = os.path.join(BUILD, u.name)
-    r = run_verus(text, wd, u.name + '.rs', seed=seed, rlimit=rlimit)
+    for _round in range(12):
+        text, spans, fnspans = u.assemble(exclude=exclude)
+        r = run_verus(text, wd, u.name + '.rs', seed=seed, rlimit=rlimit)
+        if not u.auto_opaque:
+            break
+        # auto-prelude: every type name rustc cannot find becomes an opaque external type (an ASSUMPTION-free
+        # declaration: nothing is specified about it)
+        missing = []
+        for d in r['diags']:
+            m = re.search(r'cannot find (?:type|struct, variant or union type) `(\w+)` in this scope', d['message'])
+            if m and m.group(1) not in missing and m.group(1)[0].isupper():
+                missing.append(m.group(1))
+        if not missing:
+            break
+        for nm in missing:
+            u.opaque(nm, '')
+            u.auto_added.append(nm)
     out = {'unit': u.name, 'property': u.prop, 'cmd': r['cmd'], 'wall_s': round(r['wall'], 2), 'assembled': r['path'],
            'failed': [], 'tool_errors': [], 'inconclusive': [], 'verified': 0, 'errors': 0, 'fn_times': {},
            'rewrites': dict(u.rewrites), 'smt_ms': 0}
@@ -872,15 +890,16 @@ def canary_unit(u, seed=None):
         if not m0:
             continue
         chunk = chunk[:m0.start()] + 'fn vx_canary_' + f['fn'] + chunk[m0.end():]
-        m = re.search(r'\n        ensures\n', chunk)
+        c0 = chunk.find('/*VXC*/')
+        c1 = chunk.find('/*VXCE*/')
+        if c0 < 0 or c1 < 0:
+            continue
+        m = re.search(r'\n        ensures\n', chunk[c0:c1])
         if m:
-            chunk = chunk[:m.end()] + '            false, /*VXCANARY*/\n' + chunk[m.end():]
+            at0 = c0 + m.end()
+            chunk = chunk[:at0] + '            false, /*VXCANARY*/\n' + chunk[at0:]
         else:
-            m2 = re.search(r'\n        requires\n(?:            .*\n|                .*\n)*?(?=\{|        decreases)', chunk)
-            if m2:
-                chunk = chunk[:m2.end()] + '        ensures\n            false, /*VXCANARY*/\n' + chunk[m2.end():]
-            else:
-                continue
+            chunk = chunk[:c1] + '\n        ensures\n            false, /*VXCANARY*/\n' + chunk[c1:]
         ins = f'\n/*VXCFN {fid}*/' + chunk + f'/*VXCEND {fid}*/\n'
         at = end + len(endtag)
         res_text = res_text[:at] + ins + res_text[at:]
